@@ -8,8 +8,9 @@ CLASSES = {
                      fields={'deadline': 'real', 'seq': 'int', 'cancelled': 'bool', 'action': 'any'}),
   # self._queue: a list kept as a heap by heapq -- abstracted to the set of entries it holds;
   # heapq keeps the minimum of python's list order (here: (deadline, seq)) at index 0 (assumed)
-  'HeapQ': dict(extern=True, path=None, bases=[], fields={'g_mem': 'set[TimerEntry]'}, ghost=['g_mem'],
+  'HeapQ': dict(extern=True, path=None, bases=[], fields={'g_mem': 'set[TimerEntry]'}, ghost=['g_mem'], abstracts_list=['g_mem'],
                 truthy_expr='not set_eq(self.g_mem, empty_set("TimerEntry"))'),
+  'LowResTime': dict(extern=True, path=None, bases=[], fields={'now': 'real'}),
   'TimeSource': dict(extern=True, path=None, bases=[], fields={}),
   'TimerQueue': dict(path='TimerQueue', bases=[], fields={
     '_queue': 'HeapQ', '_event': 'Event', '_seq': 'int', '_resolution': 'real', '_time_source': 'TimeSource',
@@ -19,6 +20,9 @@ CLASSES = {
 }
 
 GLOBALS = {
+  'LOW_RESOLUTION_TIMER_QUEUE': dict(type='TimerQueue', assume=[
+    'allocated(LOW_RESOLUTION_TIMER_QUEUE._queue) and allocated(LOW_RESOLUTION_TIMER_QUEUE._event) and LOW_RESOLUTION_TIMER_QUEUE._queue.g_mem != LOW_RESOLUTION_TIMER_QUEUE.g_ran']),
+  'LOW_RESOLUTION_TIME_SOURCE': dict(type='LowResTime', assume=[]),
   'GLOBAL_TIMER_QUEUE': dict(type='TimerQueue', assume=[
     'allocated(GLOBAL_TIMER_QUEUE._queue) and allocated(GLOBAL_TIMER_QUEUE._event) and GLOBAL_TIMER_QUEUE._queue.g_mem != GLOBAL_TIMER_QUEUE.g_ran']),
 }
@@ -73,7 +77,11 @@ FUNCTIONS = {
     requires=['allocated(self._queue)', 'allocated(self._event)', 'self._queue.g_mem != self.g_ran'],
     # on every normal exit the action has been queued (nothing runs, and nothing is dropped, outside the queue)
     ensures=['not subset(self._queue.g_mem, old(setof(self._queue.g_mem)))', 'subset(old(setof(self._queue.g_mem)), self._queue.g_mem)',
-             'self.g_spawned == old(self.g_spawned)'],
+             'self.g_spawned == old(self.g_spawned)',
+             # frame: the one event that may get set is this queue's own
+             'forall_ref(v, Event, implies(v != self._event, v.flag == old(v.flag)), v.flag)',
+             # what is created is a timer entry and its cancel closure -- in particular no load-balancer node
+             'forall_ref(r, Node, allocated(r) == old(allocated(r)), r.index)'],
     raises={'Exception': dict(when='action is None', ensures=['unchanged("set[TimerEntry]")', 'unchanged("TimerQueue._seq")', 'unchanged("Event.flag")'])},
     modifies=['set[TimerEntry]', 'TimerEntry.cancelled', 'TimerEntry.action', 'TimerEntry.deadline', 'TimerEntry.seq',
               'TimerQueue._seq', 'Event.flag', '$cls'],
@@ -84,6 +92,9 @@ FUNCTIONS = {
         'prove(timeout_args.deadline >= old(deadline), "not-early")',
         'prove(implies(self._resolution > 0, timeout_args.deadline < old(deadline) + self._resolution), "rounded-up-by-less-than-resolution")',
         'prove(implies(self._resolution == 0, timeout_args.deadline == old(deadline)), "unrounded-without-resolution")',
+        # the stored key is the *rounded* deadline: a whole number of resolution steps (so that entries of one tick tie
+        # and run in scheduling order)
+        'prove(implies(self._resolution > 0, exists(k, "int", timeout_args.deadline == k * self._resolution)), "stored-deadline-is-a-whole-number-of-ticks")',
         'prove(timeout_args.seq == old(self._seq) + 1 and self._seq == old(self._seq) + 1, "seq-strictly-increases")',
         'prove(not timeout_args.cancelled and timeout_args.action == action, "armed")',
       ]},
@@ -111,6 +122,23 @@ FUNCTIONS = {
 }
 
 FUNCTIONS.update({
+  # a new queue holds nothing, has started nothing, its event is clear and its worker is the one greenlet spawned here
+  'TimerQueue.__init__': dict(
+    cls='TimerQueue', params={'time_source': 'TimeSource', 'resolution': 'real'}, returns='none',
+    requires=['resolution >= 0', 'allocated(self.g_ran)', 'set_eq(self.g_ran, empty_set("any"))'],
+    ensures=['TQInv(self)', 'fresh(self._queue) and fresh(self._event)', 'set_eq(self._queue.g_mem, empty_set("TimerEntry"))',
+             'not self._event.flag', 'self._seq == 0', 'self._resolution == resolution', 'self._time_source == time_source',
+             'self._queue.g_mem != self.g_ran'],
+    modifies=['TimerQueue._queue', 'TimerQueue._event', 'TimerQueue._seq', 'TimerQueue._resolution', 'TimerQueue._time_source',
+              'TimerQueue._worker', 'HeapQ.g_mem', 'set[TimerEntry]', 'Event.flag', '$cls'],
+    allocates=True,
+    ghost=[
+      {'after': 'self._worker = gevent.spawn(self._TimerWorker)', 'do': [
+        'prove(_last_result is not None, "worker-spawned")',
+      ]},
+    ],
+    props=['C10'],
+  ),
   'TimerQueue._PeekNext': dict(cls='TimerQueue', inline=True),
   'TimerQueue._TimerWorker': dict(
     cls='TimerQueue', conc='TimerClients', guar=['TimerShared'], no_exit=True,
